@@ -298,6 +298,74 @@ def apply_any(impl, scope, op):
 def op_name(op):
   return {REBINDX: 'rebind(skip/notify_parents)', QUERY: 'query'}.get(op[0]) or D.OP_NAMES.get(op[0], str(op[0]))
 
+def batch_sweep_cases(stride=1):
+  """every ordered pair / triple of rebind entries from a pool of writes at several depths of one tree -- two fields of one element, an
+  Insertion or deletion that re-seats the elements of the list, appends, dict keys set / deleted, plain fields -- as ONE batch on a
+  Dict-rooted and on an Object-rooted tree whose containers all observe (entries whose paths overlap are left to the corpus)."""
+  def tree(root_kind):
+    l = ('cb', [('cb', {'x': 1, 'y': 2}), ('cb', {'x': 3, 'y': 4}), 5])
+    cfg = ('cb', {'a': 1, 'b': 2})
+    if root_kind == 'dict':
+      return ('cb', {'l': l, 'cfg': cfg, 'n': 0}), ['l'], ['cfg'], ['n']
+    return ('obj', 0, {'x': l, 'y': cfg}), ['x'], ['y'], None
+  def pool(L, C, N):
+    k = lambda *ks: [ek(x) for x in ks]
+    P = [(k(*L, 0, 'x'), val(9)), (k(*L, 0, 'y'), val(9)), (k(*L, 1, 'x'), val(9)), (k(*L, 1, 'y'), val({'q': 1})),
+         (k(*L, 0), [2, val(7)]), (k(*L, 1), [2, val({'x': 0})]), (k(*L, 0), val('MISSING')), (k(*L, 2), val(8)), (k(*L, 3), val(6)),
+         (k(*C, 'a'), val(9)), (k(*C, 'b'), val('MISSING')), (k(*C, 'c'), val([1]))]
+    if N is not None:
+      P.append((k(*N), val(1)))
+    return P
+  def overlap(p, q):
+    n = min(len(p), len(q))
+    return p[:n] == q[:n]
+  out = []
+  idx = 0
+  for root_kind in ('dict', 'obj'):
+    t, L, C, N = tree(root_kind)
+    P = pool(L, C, N)
+    n = len(P)
+    combos = [(a, b) for a in range(n) for b in range(n) if a != b]
+    combos += [(a, b, c) for a in range(n) for b in range(n) for c in range(n) if len({a, b, c}) == 3]
+    for combo in combos:
+      paths = [P[i][0] for i in combo]
+      if any(overlap(paths[i], paths[j]) for i in range(len(paths)) for j in range(i + 1, len(paths))):
+        continue
+      if {6, 7} <= set(combo) and ({4, 5} & set(combo)):
+        continue      # two nodes removed after a re-seating: the driver orders the removed roots by pre-call positions (symcore_driver rank)
+      idx += 1
+      # an Insertion / deletion between two writes below list elements re-seats what lives at a path: always run; the rest is strided
+      reseat = len(combo) == 3 and len(set(combo) & {4, 5, 6}) == 1 and len(set(combo) & {0, 1, 2, 3}) == 2
+      if len(combo) == 3 and stride > 1 and idx % stride and not reseat:
+        continue
+      pvs = [[P[i][0], P[i][1]] for i in combo]
+      out.append(('batch:%s/%s' % (root_kind, '+'.join(map(str, combo))), case9([t], (NS, NOP()), (NS, [D.REBIND, pos(0), pvs]))))
+  # batches whose paths are NOT prefix-free: write below P, replace / insert / delete at P, write below P again -- in every order, on a Dict-,
+  # an Object- and a List-rooted tree; the old and the new container and all ancestors observe
+  import itertools
+  newd = lambda: val(('cb', {'x': 0, 'y': 0}))
+  for root_kind in ('dict', 'obj', 'list'):
+    if root_kind == 'list':
+      t = ('cb', [('cb', {'x': 1, 'y': 2}), ('cb', {'x': 3, 'y': 4}), 5]); L = []; C = None
+    else:
+      t, L, C, N = tree(root_kind)
+    k = lambda *ks: [ek(x) for x in ks]
+    fams = [(k(*L, 0), [(k(*L, 0, 'x'), val(9)), (k(*L, 0, 'y'), val(8))]), (k(*L, 1), [(k(*L, 1, 'x'), val(9)), (k(*L, 1, 'y'), val(8))])]
+    if C is not None:
+      fams.append((k(*C), [(k(*C, 'a'), val(9)), (k(*C, 'b'), val(8))]))
+    for fi, (P_, below) in enumerate(fams):
+      ats = [('replace', [P_, newd()]), ('delete', [P_, val('MISSING')])]
+      if P_ and P_[-1][0] == 1:       # a list position: insertion before it / at it
+        ats.append(('insert', [P_, [2, newd()]]))
+        ats.append(('insert-before', [P_[:-1] + [[1, 0]], [2, val(7)]]))
+      for aname, at in ats:
+        for m in (2, 3):
+          entries = [list(below[0]), at] + ([list(below[1])] if m == 3 else [])
+          for perm in itertools.permutations(range(m)):
+            pvs = [entries[i] for i in perm]
+            out.append(('batch-overlap:%s/P%d/%s/%s' % (root_kind, fi, aname, ''.join(map(str, perm))), case9([t], (NS, NOP()), (NS, [D.REBIND, pos(0), pvs]))))
+  return out
+
 # ---- the direct oracles (the property text on the live objects) ------------------------------------------------------------------
 def observer_kind(x):
   k = D.kind_of(x)
@@ -1221,6 +1289,7 @@ def run(ctx):
   deadline_typed = t0 + ctx.scale(90, 1300)
   fixed = [('corpus:' + name, [quirks, c[1], c[2]]) for name, c in CORPUS9.items()]
   fixed += [(name, [quirks, c[1], c[2]]) for name, c in sweep_cases(ctx.scale(1, 3))]
+  fixed += [(name, [quirks, c[1], c[2]]) for name, c in batch_sweep_cases(ctx.scale(4, 1))]
   n = ctx.scale(600, 30000)
   plan = [('random', None, 0.5, 0.25), ('mutators', D.MUTATING, 0.3, 0.25),
           ('batches', {D.REBIND, D.DUPDATE, D.LEXTEND, D.LIMUL, D.LCLEAR, D.LSORT, D.LREVERSE, D.DCLEAR, D.DPOPITEM}, 0.2, 0.1)]
@@ -1324,6 +1393,7 @@ def run(ctx):
   ctx.extra['hypotheses'] = hyp
   ctx.extra['corpus_cases'] = len(CORPUS9)
   ctx.extra['sweep_cases'] = sum(1 for k in kinds if k.startswith('sweep'))
+  ctx.extra['batch_sweep_cases'] = sum(1 for k in kinds if k.startswith('batch'))
   # violation search when something is broken and the oracles have not hit yet: more histories biased to the operations that disagree
   if ctx.is_broken() and not ctx.hits:
     ops = set()
